@@ -351,3 +351,19 @@ class SymEnumerated:
 
     def __pyvc_elem__(self, k):
         return (V.SInt(V.z3int(k)) if not isinstance(k, int) else k, self.models.seq_elem(self.seq, V.z3int(k)))
+
+
+class SymRange:
+    """range(lo, hi) with a symbolic bound: element k is lo + k, length max(hi - lo, 0)."""
+
+    __pyvc_symbolic_iter__ = True
+
+    def __init__(self, lo, hi):
+        self.lo, self.hi = V.z3int(lo), V.z3int(hi)
+        self.n = z3.If(self.hi > self.lo, self.hi - self.lo, z3.IntVal(0))
+
+    def __pyvc_len__(self):
+        return V.SInt(self.n)
+
+    def __pyvc_elem__(self, k):
+        return V.SInt(z3.simplify(self.lo + V.z3int(k)))
